@@ -117,6 +117,24 @@ def _list_index(seq, x):
     raise ValueError("x not in list")
 
 
+def _list_index_from(seq, x, start, stop):
+    """list.index(x, start[, stop]) - start / stop are interpreted like slice bounds"""
+    n = len(seq)
+    if start < 0:
+        start = max(start + n, 0)
+    if stop is None or stop > n:
+        stop = n
+    elif stop < 0:
+        stop = max(stop + n, 0)
+    i = start
+    while i < stop:
+        y = seq[i]
+        if y is x or y == x:
+            return i
+        i += 1
+    raise ValueError("x not in list")
+
+
 def _list_remove(lst, x):
     i = 0
     for y in lst:
